@@ -118,6 +118,44 @@ pub fn type_alias_key(name: &str) -> String {
     format!("'{name}")
 }
 
+/// The narrowings of every scope, with the local index each variable is bound to at that moment
+/// (see [`restore_narrowings`]).
+pub type SavedNarrowings = Vec<(Narrowings, HashMap<String, usize>)>;
+
+pub fn save_narrowings(scopes: &[Scope]) -> SavedNarrowings {
+    scopes
+        .iter()
+        .map(|scope| {
+            let indices = scope
+                .bindings
+                .iter()
+                .filter_map(|(name, binding)| match binding {
+                    Binding::Variable { index, .. } => Some((name.clone(), *index)),
+                    Binding::TypeAlias(_) => None,
+                })
+                .collect();
+            (scope.narrowings.clone(), indices)
+        })
+        .collect()
+}
+
+/// Put back the narrowings saved by [`save_narrowings`], forgetting what was recorded since.
+/// A variable that has been bound anew in the meantime keeps no narrowing: the saved one
+/// described its previous binding.
+pub fn restore_narrowings(scopes: &mut [Scope], saved: SavedNarrowings) {
+    for (scope, (narrowings, indices)) in scopes.iter_mut().zip(saved) {
+        scope.narrowings = narrowings;
+        let bindings = &scope.bindings;
+        scope.narrowings.variables.retain(|name, _| {
+            let base = name.split('.').next().unwrap_or(name);
+            match bindings.get(base) {
+                Some(Binding::Variable { index, .. }) => indices.get(base) == Some(index),
+                _ => true,
+            }
+        });
+    }
+}
+
 /// Define a new type alias in the current scope
 pub fn define_type_alias(scopes: &mut [Scope], name: String, type_alias: TypeAliasDef) {
     if let Some(scope) = scopes.last_mut() {
